@@ -13,7 +13,6 @@ NOTES = {
  'C05': 'partial: non-interference through a general client phase and equality of real completion times are not proved',
  'C06': 'partial: memory safety of the C code beyond the modelled buffers is observed under ASan/UBSan, not proved; lines >= 128 KiB are not in the model yet',
  'C07': 'partial: memory safety of the C code beyond the modelled buffers is observed under ASan/UBSan, not proved',
- 'C08': 'partial: the refinement carries a nesting-depth hypothesis that is an artefact of the mirror (being removed)',
  'C09': 'partial: buffer capacity (cbuf indices, overflow) is not modelled',
  'C11': 'partial: client-id wrap at INT_MAX is outside the unbounded-Nat model',
  'C15': 'partial: CR/LF-freeness of data-carrying lines is a hypothesis of the stream theorems',
